@@ -234,6 +234,9 @@ class LocalAnomalyScore(BaseLocalAnomalyScore):
             Reference to self.
         """
         self._interval_cost.fit(X)
+        # Clone at fit time: hyper-parameters of `cost` may have been changed after
+        # construction, e.g. by `set_params(anomaly_score__param=...)` on a detector.
+        self._any_subset_cost = self.cost.clone()
         return self
 
     def _evaluate(self, cuts: np.ndarray) -> np.ndarray:
